@@ -4,8 +4,7 @@ use vstd::prelude::*;
 verus! {
 //@include lib/prelude.rs
 
-/// the f64 hysteresis test of target_n_trees is an uninterpreted boolean (floating point is not decided)
-pub uninterp spec fn ratio_small(a: u64, b: u64) -> bool;
+//@include lib/count_specs.rs
 #[verifier::external_body]
 pub fn ratio_lt_020_(a: u64, b: u64) -> (r: bool) ensures r == ratio_small(a, b) { unimplemented!() }
 
@@ -15,8 +14,7 @@ pub open spec fn cap_of(opt: &BuildOption, dimensions: usize) -> u64 {
 
 impl Writer {
 //@extract src/writer.rs | impl<D: Distance> Writer<D> | fit_in_descendant
-//@spec
-    ensures r == (n <= cap_of(opt, self.dimensions))
+//@specfile lib/contracts/fit_in_descendant.spec
 //@end
 }
 
@@ -27,20 +25,9 @@ impl Writer {
 ===
 ratio_lt_020_(tree_to_remove, nb_trees)
 >>>
-//@spec
-    requires dimensions >= 1,
-    ensures
-        // C15: an explicit request is honoured exactly
-        options.n_trees matches Some(n) ==> r == n as u64,
-        // automatic: the formula or (hysteresis) the current count, and never zero
-        options.n_trees is None ==> (r == auto_trees(item_indices@.len() as u64, dimensions) || (r == roots@.len() as u64 && roots@.len() as u64 > auto_trees(item_indices@.len() as u64, dimensions))),
-        options.n_trees is None ==> r >= 1,
+//@specfile lib/contracts/target_n_trees.spec
 //@end
 
-pub open spec fn auto_trees(n: u64, d: u64) -> u64 {
-    let q = (n as int) / ((n as int) / (d as int) + 1);
-    if q < 1 { 1u64 } else { q as u64 }
-}
 
 } // verus!
 fn main() {}
